@@ -58,7 +58,7 @@ CLAIMS = {
          "Seeded search over schedules × hash seeds × processes for a per-run corpus; the baton schedule is recorded and replays exactly; a violation that depends on earlier runs of the same process is replayed with that history in a fresh process; message text is not part of the outcome. One thread-engine run in three shares a key-store connection pool among the threads (back-pressure through poll_ready); each run abandons 4-32 validations mid-await and re-evaluates the corpus; the corpus is also evaluated with the process-wide log level lowered.",
          "Preemption only at seams in the native engine; the real-parallel phases are scheduled by the OS (their assertion holds for every schedule; a failure is re-found by re-running up to 40 times, not replayed step by step); Miri tier runs only when the nightly toolchain is present and is skipped otherwise.", "DESIGN.md §4 C18, §10.2, §10.5–§10.7"),
  "C19": ("deterministic simulation: duplication faults on authentication inputs in every order, exactly one selection valid; reference selection rules",
-         "Seeded search over duplicated inputs × positions on both carriers; the documented selection table and the reference verdict from bytes must agree before the library is judged; the key store records which identity was selected. Duplicates may be empty or look-alikes (NBSP/NEL byte, other letter case: unknown parameters), the parameter list may contain empty elements, and the duplicated input may sit among 21-60 other parameters and header lines.",
+         "Seeded search over duplicated inputs × positions on both carriers; the documented selection table and the reference verdict from bytes must agree before the library is judged; the key store records which identity was selected. Duplicates may be empty or look-alikes (NBSP/NEL byte, other letter case, a blank before the equal-sign: unknown parameters), the parameter list may contain empty elements, and the duplicated input may sit among 21-60 other parameters and header lines.",
          "The signer signs the request with the duplicate in place where the duplicate is part of the canonical form.", "DESIGN.md §4 C19, §10.5–§10.7"),
 }
 
